@@ -92,7 +92,7 @@ def gen_env(rng, prof):
             if rng.random() < prof["p_ext_fail"]:
                 if rng.random() < 0.2:
                     # permanently broken extractor (also for the exceptions it raises itself, when registered on a base class)
-                    fail = [[k, rng.randint(8, 11)] for k in range(60)]
+                    fail = [[4294967295, rng.randint(8, 11)]]  # on every call
                 else:
                     for k in range(8):
                         if rng.random() < 0.4:
@@ -100,7 +100,7 @@ def gen_env(rng, prof):
             fields = [["ex%d" % c, {"n": c}]]
             if prof.get("p_ext_reserved") and rng.random() < prof["p_ext_reserved"]:
                 # an extractor whose result happens to use key names eliot sets itself afterwards
-                fields.append(["reason", {"s": "from-extractor"}])
+                fields.append([rng.choice(["reason", "exception", "traceback"]), {"s": "from-extractor"}])
             extractors.append(dict(cls=c, fields=fields, failAt=fail))
     ser_fail = [[k, rng.randint(8, 11)] for k in range(12) if rng.random() < prof["p_ser_fail"]]
     dest_fail = []
